@@ -16,7 +16,7 @@ def templates(rnd):
     syms = [f"S{k}" for k in range(r)]
     d = rnd.choice(DT)
     num = ops.base(d) not in ("bool",)
-    k = rnd.choice(["ew2", "ew2", "ew2mixed", "ew2mixed", "bcast", "bcast", "reduce", "reduce", "layout", "getitem", "sort", "cumsum", "where", "program", "unique", "matmul", "concat", "allany", "roll", "take_lazyidx", "mknull", "mknull"])
+    k = rnd.choice(["ew2", "ew2", "ew2mixed", "ew2mixed", "bcast", "bcast", "reduce", "reduce", "layout", "getitem", "sort", "cumsum", "where", "program", "unique", "matmul", "concat", "allany", "roll", "take_lazyidx", "mknull", "mknull", "ewconst", "ewconst"])
     bc = {}   # symbol -> symbol it may broadcast against (fed 1 or equal)
     if k == "ew2":
         f = rnd.choice(["add", "subtract", "multiply", "maximum" if False else "less", "equal", "logical_and" if d == "bool" else "add"])
@@ -33,6 +33,23 @@ def templates(rnd):
         impl = rnd.choice(["out = ndx.broadcast_arrays(x, y)", "out = ndx.broadcast_arrays(y, x)", "out = ndx.broadcast_to(y, nda.shape(x))",
                            "u_, v_ = ndx.broadcast_arrays(x, y); out = ndx.stack([u_, v_])"])
         return impl, {"x": syms, "y": ys}, {"x": d, "y": d}, bc
+    if k == "ewconst":
+        # a UNIFORM data-holding constant with several elements (all 1 / all 0 / all True / all False) against a placeholder
+        # whose run-time extent is 1 or the constant's: the result always has the broadcast shape
+        kk = rnd.choice([2, 3])
+        if d.startswith("n"):
+            return None
+        npd = ops.base(d)
+        if npd == "bool":
+            f, v = rnd.choice([("logical_and", "True"), ("logical_or", "False"), ("logical_and", "False"), ("logical_xor", "False")])
+        elif npd == "utf8":
+            return None
+        else:
+            f, v = rnd.choice([("multiply", "1"), ("add", "0"), ("multiply", "0"), ("subtract", "0"), ("maximum" if False else "multiply", "1")])
+        const = f"ndx.asarray(np.full([{kk}], {v}, dtype=np.{npd}))"
+        args = rnd.choice([f"x, {const}", f"{const}, x"])
+        lead = syms[:-1]
+        return f"out = ndx.{f}({args})", {"x": lead + ["C0"]}, {"x": d}, {"C0": ("oneof", [1, kk])}
     if k == "mknull":
         # a mask (or nullable condition) of run-time extent 1 against values of any extent: one flag per element
         if not num or d.startswith("n"):
@@ -124,7 +141,9 @@ def instantiate(rnd, sigs, dts, cons, assign=None):
     env = dict(assign or {})
     def val(s):
         if s not in env:
-            if s in cons and isinstance(cons[s], str):      # broadcast partner
+            if s in cons and isinstance(cons[s], tuple) and cons[s][0] == "oneof":
+                env[s] = rnd.choice(cons[s][1])
+            elif s in cons and isinstance(cons[s], str):      # broadcast partner
                 base = val(cons[s])
                 env[s] = rnd.choice([base, 1]) if base != 0 or True else base
                 if env[s] != base and base == 0:
